@@ -101,3 +101,42 @@ Proof.
     + destruct (g_members g); [discriminate | discriminate].
     + apply all2b_forall2 in H0. revert H0. apply Forall2_impl. intros; apply member_ok_inv; auto.
 Qed.
+
+(* ---- acceptance: distinguishable rows pass the overlap filter ---- *)
+
+(* two cells hold concrete payloads neither of which generalises the other *)
+Definition incomparable (c1 c2 : option term) : Prop :=
+  match c1, c2 with
+  | Some x, Some y => sup x y = None /\ sup y x = None
+  | _, _ => False
+  end.
+
+(* rows of equal length that are incomparable at some key *)
+Inductive distinguishable : list (option term) -> list (option term) -> Prop :=
+| dist_here c1 c2 r1 r2 : incomparable c1 c2 -> distinguishable (c1 :: r1) (c2 :: r2)
+| dist_later c1 c2 r1 r2 : distinguishable r1 r2 -> distinguishable (c1 :: r1) (c2 :: r2).
+
+Lemma distinguishable_not_generalises r1 r2 :
+  distinguishable r1 r2 -> row_generalises r1 r2 = false /\ row_generalises r2 r1 = false.
+Proof.
+  induction 1 as [c1 c2 r1 r2 H | c1 c2 r1 r2 H IH]; unfold row_generalises in *; simpl.
+  - destruct c1 as [x|], c2 as [y|]; simpl in H; try contradiction.
+    destruct H as [H1 H2]. rewrite H1, H2. simpl. split; reflexivity.
+  - destruct IH as [I1 I2]. rewrite I1, I2. split; apply andb_false_r.
+Qed.
+
+Lemma rows_distinct_from_ok r others :
+  Forall (distinguishable r) others -> rows_distinct_from r others = true.
+Proof.
+  intro H. unfold rows_distinct_from. apply forallb_forall. intros o Ho.
+  rewrite Forall_forall in H. destruct (distinguishable_not_generalises _ _ (H o Ho)) as [A B].
+  rewrite A, B. reflexivity.
+Qed.
+
+(* a family whose rows are pairwise distinguishable is never rejected as overlapping *)
+Theorem distinguishable_rows_accepted rows :
+  ForallOrdPairs distinguishable rows -> rows_distinct rows = true.
+Proof.
+  induction 1 as [|r rest Hr Hrest IH]; simpl; [reflexivity|].
+  rewrite (rows_distinct_from_ok r rest Hr), IH. reflexivity.
+Qed.
